@@ -70,7 +70,7 @@ def snapshot(path):
     m = stat.S_IMODE(st.st_mode)
     if stat.S_ISDIR(st.st_mode):
         kids = {}
-        for n in sorted(os.listdir(os.fsencode(path))):
+        for n in os.listdir(os.fsencode(path)):          # readdir order: the order the sender sees (left free by the property)
             kids[n] = snapshot(os.path.join(os.fsencode(path), n))
         return ("D", m, int(st.st_mtime), kids)
     if stat.S_ISREG(st.st_mode):
